@@ -140,8 +140,11 @@ impl<'a> Iterator for RangedBytesIterator<'a> {
         }
         let bytes = self.cursor.read_bytes(self.size).ok()?;
         let index = self.index;
-        self.index += 1;
         self.remaining -= 1;
+        // the last object of a range that ends at u16::MAX has no successor index
+        if self.remaining > 0 {
+            self.index += 1;
+        }
         Some((bytes, index))
     }
 
